@@ -253,6 +253,24 @@ func (sl *schedLink) replay(p *party) {
 	}
 }
 
+// C05: everything p has accepted lately, delivered once more right away (the moment after a rotation
+// is when counters are forgotten)
+func (sl *schedLink) replayLast(p *party, k int) {
+	s := sl.side(p)
+	for i := len(s.seenWire) - 1; i >= 0 && i >= len(s.seenWire)-k && !sl.w.dead; i-- {
+		plain, ts, _, _ := sl.w.recv(p, s.seenWire[i])
+		olog.ok("C05")
+		if plain != nil {
+			olog.viol("C05", "replay-delivered", fmt.Sprintf("%s delivered a data message again that was replayed straight after it (and %d others) had been accepted: %q", p.id, len(s.seenWire)-1-i, plain))
+		}
+		for _, t := range ts {
+			if isDataWire(t) {
+				olog.viol("C05", "replay-answered", fmt.Sprintf("%s answered a replayed data message with a data message", p.id))
+			}
+		}
+	}
+}
+
 func (sl *schedLink) drain() {
 	for i := 0; i < 200000 && (len(sl.qab) > 0 || len(sl.qba) > 0); i++ {
 		if !sl.deliverOne(true) {
@@ -505,20 +523,35 @@ func (g *gen) crossingRotations(w *world) {
 	A, B := sl.a, sl.b
 	toA, toB := false, true
 	t := func(p *party) { sl.sendText(p, g.cleanText()) }
+	d := func(to bool) {
+		sl.deliverOne(to)
+		if to == toB {
+			sl.replayLast(B, 3)
+		} else {
+			sl.replayLast(A, 3)
+		}
+	}
+	// first messages of the two sides cross: one side's key rotates while the other's stays
+	t(A)
+	t(B)
+	d(toA)
+	t(A)
+	d(toB)
+	d(toB)
 	t(B)
 	t(A)
-	sl.deliverOne(toA)
-	sl.deliverOne(toB)
+	d(toA)
+	d(toB)
 	t(A)
 	t(B)
-	sl.deliverOne(toA)
+	d(toA)
 	t(A)
-	sl.deliverOne(toB)
+	d(toB)
 	t(B)
-	sl.deliverOne(toB)
+	d(toB)
 	t(B)
-	sl.deliverOne(toA)
-	sl.deliverOne(toA)
+	d(toA)
+	d(toA)
 	t(A)
 	sl.drain()
 	for i := 0; i < 4 && !w.dead; i++ {
